@@ -148,6 +148,43 @@ func (c *checker) spaceB() {
 	}
 }
 
+// spaceB2: every content block shape inside (and next to) representative wrappers, so that list / table state
+// is exercised across an excluded block.
+func (c *checker) spaceB2() {
+	all := append(append(append([]wrapper{}, structWrappers...), mixedWrappers...), attrWrappers(true)...)
+	for _, skn := range []string{"body", "between-lists", "div>div", "wrapdiv"} {
+		var sk skeleton
+		for _, s := range skeletons {
+			if s.name == skn {
+				sk = s
+			}
+		}
+		for _, wn := range []string{"div", "nav", "header", "footer", "div.class=menu", "div.role=contentinfo", "div.class=navy", "article"} {
+			var w wrapper
+			for _, x := range all {
+				if x.name == wn {
+					w = x
+				}
+			}
+			for _, in := range contentShapes {
+				for _, after := range []string{"none", "same"} {
+					desc := harness.D("space", "B2", "skel", sk.name, "w", w.name, "inner", in.name, "after", after)
+					b := &builder{}
+					w, in := w, in
+					mid := func(b *builder) []*node {
+						out := one(w.build(b, in.build))
+						if after == "same" {
+							out = append(out, in.build(b)...) // the same shape again right after the wrapper
+						}
+						return out
+					}
+					c.doc(docCase{desc: desc, body: sk.build(b, mid), st: styles[0], fr: frames[0], nontrivial: true, deep: skn == "body" && after == "none"})
+				}
+			}
+		}
+	}
+}
+
 // pairAlphabet: representative wrappers for the pair/triple spaces.
 func pairAlphabet(thorough bool) []wrapper {
 	names := []string{"div", "section", "nav", "aside", "header", "footer",
